@@ -414,7 +414,76 @@ func bothPeerScenario(depth int, code codes.Code, small bool) *mcx.Scenario {
 	}
 }
 
+// The peer uploads with blocks LARGER than this endpoint's maximum and keeps its size after the first 2.31 Continue
+// proposed the smaller one (RFC 7959 2.5: adopting the proposed size is a SHOULD). The blocks arrive in order, each
+// once: the application gets exactly the uploaded bytes, once - or the exchange fails; never a shortened body.
+func uploadLargerBlocksScenario(peerSzx blockwise.SZX, size int) *mcx.Scenario {
+	name := fmt.Sprintf("udp scripted peer: Block1 upload of %d bytes in %d-byte blocks to an endpoint whose maximum is 16, the peer keeps its block size", size, peerSzx.Size())
+	return &mcx.Scenario{
+		Name:   name,
+		Bounds: mcx.Bounds{Preempt: 0, Env: -1, Select: 0},
+		Opt:    vrt.Options{MaxSteps: 600000},
+		Body: func(s *vrt.Sched) func() (string, []mcx.Finding) {
+			var fs []mcx.Finding
+			var codesSeen []string
+			fail := func(sig, format string, a ...any) {
+				fs = append(fs, mcx.Finding{Sig: sig, What: name + ": " + fmt.Sprintf(format, a...) + "; replies " + fmt.Sprint(codesSeen)})
+			}
+			delivered := 0
+			vrt.App("peer", func() {
+				up := pattern(size, 0x3c)
+				var got [][]byte
+				B := udpw.New(udpw.Opts{NStart: 4, MaxRetransmit: 2, LimitTotal: 4, LimitEndpoint: 4, QueueSize: 8, BlockWise: true, SZX: blockwise.SZX16, FirstMID: 3000, BWTimeout: 20 * time.Second,
+					Handler: func(w *responsewriter.ResponseWriter[*client.Conn], r *pool.Message) {
+						b, _ := r.ReadBody()
+						got = append(got, append([]byte{}, b...))
+						_ = w.SetResponse(codes.Changed, message.TextPlain, nil)
+					}})
+				bs := int(peerSzx.Size())
+				tok := message.Token{0xD4, 0x09}
+				failed := false
+				for num := 0; num*bs < len(up) && !failed; num++ {
+					end := (num + 1) * bs
+					more := end < len(up)
+					if !more {
+						end = len(up)
+					}
+					bo, _ := blockwise.EncodeBlockOption(peerSzx, int64(num), more)
+					_ = B.Inject(message.Message{Type: message.Confirmable, Code: codes.PUT, MessageID: int32(700 + num), Token: tok, Payload: up[num*bs : end],
+						Options: message.Options{{ID: message.URIPath, Value: []byte("up")}, {ID: message.Block1, Value: encodeUint(bo)}}})
+					vrt.Quiesce("peer: block processed")
+					for _, o := range B.NewOuts() {
+						if bytes.Equal(o.M.Token, tok) {
+							codesSeen = append(codesSeen, o.M.Code.String())
+							if o.M.Code >= codes.BadRequest {
+								failed = true // the exchange fails: allowed
+							}
+						}
+					}
+				}
+				delivered = len(got)
+				for _, b := range got {
+					if !bytes.Equal(b, up) {
+						fail("peer/partial-or-mixed-body-presented", "the application received %d bytes %s, the peer uploaded %d bytes", len(b), head(b), len(up))
+					}
+				}
+				if len(got) > 1 {
+					fail("peer/handler-invoked-twice", "the upload was handed to the application %d times", len(got))
+				}
+				if len(got) == 0 && !failed {
+					fail("peer/upload-neither-delivered-nor-failed", "every block was answered without an error, yet the application never got the body")
+				}
+			})
+			return func() (string, []mcx.Finding) { return fmt.Sprintf("%v|%d", codesSeen, delivered), fs }
+		},
+	}
+}
+
 func addPeer(r *ev.Run, scs *[]*mcx.Scenario) {
+	for _, sz := range []int{96, 159, 160, 161, 288} {
+		*scs = append(*scs, uploadLargerBlocksScenario(blockwise.SZX32, sz))
+	}
+	*scs = append(*scs, uploadLargerBlocksScenario(blockwise.SZX64, 200))
 	for _, code := range []codes.Code{codes.PUT, codes.POST} {
 		*scs = append(*scs, bothPeerScenario(ev.Pick(r, 7, 9), code, false))
 		*scs = append(*scs, bothPeerScenario(ev.Pick(r, 6, 8), code, true))
